@@ -10,7 +10,7 @@ export CCACHE_BASEDIR=/
 WT=${CONFIRM_WT:-/tmp/confirm_wt}
 OUT=$HERE/seeded/_confirm
 mkdir -p "$OUT"
-IDS=${@:-$(ls "$HERE/seeded" | grep -E '^C[0-9]+[AB]$')}
+IDS=${@:-$(ls "$HERE/seeded" | grep -E '^C[0-9]+[ABC]$')}
 cleanup() { git -C /repo worktree remove --force "$WT" 2>/dev/null; rm -rf "$WT"; }
 trap cleanup EXIT
 cleanup
@@ -21,7 +21,7 @@ cmake --build "$WT/_build" -j16 >"$OUT/_build_clean.log" 2>&1 || { echo "clean b
 # demos against the unchanged tree first
 for id in $IDS; do
   d=$HERE/seeded/$id
-  ( cd "$WT" && timeout 600 sh "$d/demo.sh" "$WT/_build" ) >"$OUT/$id.clean.log" 2>&1
+  ( cd "$WT" && timeout 600 bash "$d/demo.sh" "$WT/_build" ) >"$OUT/$id.clean.log" 2>&1
   echo $? >"$OUT/$id.clean.rc"
 done
 for id in $IDS; do
@@ -32,7 +32,7 @@ for id in $IDS; do
     echo "$res does not build" >"$OUT/$id.txt"; git -C "$WT" checkout -- .; continue
   fi
   t=$(cd "$WT" && ctest --test-dir _build -j8 --timeout 900 2>&1 | grep "tests passed" | head -1)
-  ( cd "$WT" && timeout 600 sh "$d/demo.sh" "$WT/_build" ) >"$OUT/$id.mut.log" 2>&1
+  ( cd "$WT" && timeout 600 bash "$d/demo.sh" "$WT/_build" ) >"$OUT/$id.mut.log" 2>&1
   rcm=$?
   rcc=$(cat "$OUT/$id.clean.rc")
   echo "$res builds=yes; ctest='$t'; demo with change rc=$rcm ($(tail -1 "$OUT/$id.mut.log" | cut -c1-60)); demo without change rc=$rcc ($(tail -1 "$OUT/$id.clean.log" | cut -c1-60))" >"$OUT/$id.txt"
